@@ -60,23 +60,26 @@ pub async fn handle_websocket(
             // Check if the multiplexor has received a UDP datagram
             Ok(datagram_frame) = mux.get_datagram() => {
                 let flow_id = datagram_frame.flow_id;
-                if let Some(sender) = udp_clients.get_mut(&flow_id) {
-                    sender.try_send(datagram_frame).unwrap_or_else(|err| {
-                        match err {
-                            mpsc::error::TrySendError::Closed(_) => {
-                                // This client has been pruned, so we should
-                                // remove it from the map and hopefully
-                                // the client will try again.
-                                trace!("UDP client {flow_id} has been pruned");
-                                udp_clients.remove(&flow_id);
-                            }
-                            mpsc::error::TrySendError::Full(_) => {
-                                // The channel is full, so just discard the datagram
-                                trace!("UDP client {flow_id} has a full channel");
-                            }
+                let datagram_frame = if let Some(sender) = udp_clients.get_mut(&flow_id) {
+                    match sender.try_send(datagram_frame) {
+                        Ok(()) => None,
+                        Err(mpsc::error::TrySendError::Closed(datagram_frame)) => {
+                            // The forwarder of this client has been pruned (or failed):
+                            // start a new one with this datagram instead of losing it.
+                            trace!("UDP client {flow_id} has been pruned");
+                            udp_clients.remove(&flow_id);
+                            Some(datagram_frame)
                         }
-                    });
+                        Err(mpsc::error::TrySendError::Full(_)) => {
+                            // The channel is full, so just discard the datagram
+                            trace!("UDP client {flow_id} has a full channel");
+                            None
+                        }
+                    }
                 } else {
+                    Some(datagram_frame)
+                };
+                if let Some(datagram_frame) = datagram_frame {
                     let (sender, receiver) = mpsc::channel::<Datagram>(config::INCOMING_DATAGRAM_BUFFER_SIZE);
                     udp_clients.insert(flow_id, sender);
                     jobs.spawn(udp_forward_on(
